@@ -327,3 +327,21 @@ Proof.
 Qed.
 Theorem size_is_sum t : t_read t QSize = ASize (Z.of_nat (list_sum (map fst (cols t)))) (Z.of_nat (list_sum (map fst (rows t)))).
 Proof. cbn [t_read]. unfold twidth, theight. now rewrite !width_sum. Qed.
+
+(* ---- the structural part of C07 as one statement ---- *)
+Theorem xml_full_history : forall (os : list top) (t : tstate), WF t -> fits t = true -> Forall op_ok os ->
+  exists t', t_run t os = Some t' /\ WF t' /\ fits t' = true /\ XmlOK (render t') = true /\ to_tstate (render t') = t' /\
+             t_read t' QSize = ASize (Z.of_nat (list_sum (map fst (cols t')))) (Z.of_nat (list_sum (map fst (rows t')))).
+Proof.
+  intros os t Hwf Hf Hok. destruct (xmlok_history os t Hwf Hf Hok) as (t' & Hr & Hw' & Hf' & Hx).
+  exists t'. repeat split; auto; try apply Hw'. apply to_tstate_render, Hw'. apply size_is_sum.
+Qed.
+Theorem first_row_model : forall (t : tstate) (o : top) (t' : tstate), WF t -> fits t = true -> op_ok o -> theight t = 0 ->
+  t_step t o = Some t' -> 0 < theight t' -> 1 <= twidth t'.
+Proof.
+  intros t o t' Hwf Hf Hok Hh Hs Hh'. destruct (step_refines t o Hwf Hok) as (t2 & Hs2 & Hw2 & Ha).
+  rewrite Hs in Hs2. inversion Hs2; subst t2.
+  assert (Hg : GOK (abs_t t)) by (apply (fits_GOK t Hwf); exact Hf).
+  pose proof (first_row_declares_columns (abs_t t) o Hg) as H. rewrite gheight_abs in H. specialize (H Hh).
+  unfold has_col_if_rows in H. rewrite <- Ha, gheight_abs, ncols_abs in H. apply H, Hh'.
+Qed.
